@@ -27,6 +27,10 @@ _code_matches = []
 
 
 def find_core_tokens(string, root):
+    global _code_matches
+    # start afresh: matches from an earlier string stay behind if tokenizing
+    # was aborted before InlineCode.find() could collect them.
+    _code_matches = []
     delimiters = []
     matches = []
     escaped = False
